@@ -1,0 +1,25 @@
+//! Scheduling hooks for verification harnesses (feature `verif-hooks`, off by default).
+//!
+//! `yield_point` is called immediately before every lock acquisition of `MemoryFS` (and at the entry of
+//! `PhysicalFS::create_dir`). Without an installed hook it does nothing.
+use std::cell::RefCell;
+
+type Hook = Box<dyn Fn(&'static str)>;
+
+thread_local! {
+    static HOOK: RefCell<Option<Hook>> = RefCell::new(None);
+}
+
+/// Installs (or removes) the hook of the current thread.
+pub fn set_hook(hook: Option<Hook>) {
+    HOOK.with(|h| *h.borrow_mut() = hook);
+}
+
+/// Called by the library at a scheduling point.
+pub fn yield_point(label: &'static str) {
+    HOOK.with(|h| {
+        if let Some(f) = &*h.borrow() {
+            f(label)
+        }
+    });
+}
